@@ -14,10 +14,31 @@
      subtraction/addition;
    * layout: a written file is one 1024-byte GSI block plus one 128-byte TTI block per cue; block lengths;
    * field offsets of GSI and TTI as probed from the code are those of EBU Tech 3264, on both sides;
-   * reader and writer totality (no Panic).
-   Document-level theorems are in the second half (see the header there). *)
+   * reader and writer totality (no Panic);
+   * the reader's character handler on well-formed text fields: table strings, and NFC (as tabulated from the vendored
+     normaliser) of character + floating diacritic; unknown bytes and padding decode to nothing;
+   * GSI block: parse (bytes g) = g for every representable block (fields fit their widths and have no white space
+     at their ends, numbers within their digit counts, valid dates, 25/30 fps, programme start / first in-cue frame
+     instants below 100 h) - decidable predicate gsi_reprb;
+   * TTI block: every field survives bytes/parse (in/out frame instants incl. the programme start, vertical position
+     within 1..23 under the teletext standards); user-data blocks (EBN 0xFE) are stepped over;
+   * rows: what the writer emits for the lines of a cue (runs of repertoire text with italic/underline/boxing flags,
+     joined by spaces, lines joined by 0x8A, padded with 0x8F) is read back as the same lines, runs, texts and
+     effective flags - by the open-subtitling row parser and by the teletext row parser (rows without start box);
+   * documents: for every representable document, WriteToSTL succeeds and ReadFromSTL of its output returns the
+     metadata of the GSI block and, cue by cue, the same times, justification, vertical position, lines, runs and
+     flags - display standard "0" (C05_write_read_open) and every other display standard code, in particular the
+     writer's default "1" and "2" (C05_write_read_teletext).
+   Side conditions (representability), each needed because the format cannot carry more: text over the repertoire
+   without '$' (C05_chars_dollar_refuted), no white space at the ends of a run (the reader trims), no two adjacent
+   unstyled runs in a line (the writer joins runs with a space: they would read back as one run), at least one line
+   and one run, encoded text of at most 112 bytes, in/out times on the frame grid after adding the programme start
+   (a time inside a frame is truncated to the frame: C16), fewer than 65536 cues (16-bit subtitle number).
+   Not proved here (oracle and correspondence only): reading of arbitrary renderings of a ground-truth file (style
+   codes in any order, closing codes omitted, colour / start box codes); the theorems cover the writer's rendering. *)
 From Coq Require Import List ZArith NArith Bool.
-From Astisub Require Import Kit.Base Kit.Str Kit.Utf8 Model.Dur Model.Stl Gen.StlTables Proofs.StlCodec Proofs.StlBlocks.
+From Astisub Require Import Kit.Base Kit.Str Kit.Utf8 Kit.Scan Model.Dur Model.Stl Gen.StlTables Proofs.StlCodec Proofs.StlBlocks
+  Proofs.StlTti Proofs.StlGsi Proofs.StlRows Proofs.StlRowsTtx Proofs.StlDoc Proofs.StlWriteRead.
 Import ListNotations.
 
 (* ---- character codec ---- *)
@@ -83,3 +104,91 @@ Print Assumptions C05_read_total.
 Theorem C05_write_total : forall now md items site, write_stl now md items <> Panic site.
 Proof. exact write_total. Qed.
 Print Assumptions C05_write_total.
+
+(* ---- the reader's character handler ---- *)
+Theorem C05_decode_units : forall us, forallb cunit_ok us = true ->
+  decode_bytes None (flat_map cunit_bytes us) = (concat (map cunit_text us), None).
+Proof. exact decode_units. Qed.
+Print Assumptions C05_decode_units.
+
+(* ---- GSI and TTI blocks ---- *)
+Theorem C05_gsi : forall g, gsi_repr g -> parse_gsi (gsi_bytes g) = Ok g.
+Proof. exact gsi_roundtrip. Qed.
+Print Assumptions C05_gsi.
+Theorem C05_gsi_decidable : forall g, gsi_reprb g = true <-> gsi_repr g.
+Proof. exact gsi_reprb_iff. Qed.
+Print Assumptions C05_gsi_decidable.
+Theorem C05_tti : forall fps dsc tcp t, (fps = 25 \/ fps = 30)%Z -> tti_repr fps dsc tcp t ->
+  parse_tti (tti_bytes fps dsc tcp t) fps =
+  mkTti (t_cf t) (t_cs t) (t_ebn t) (t_jc t) (t_sgn t) (t_sn t) (pad_right_cut 143 112 (encode_text_stl (t_text t)))
+        (t_in t + tcp)%Z (t_out t + tcp)%Z (t_vp t).
+Proof. exact tti_roundtrip. Qed.
+Print Assumptions C05_tti.
+Theorem C05_user_data_skipped : forall p rest fuel g tcp acc items,
+  length p = 128%nat -> nth 3 p 0%N = 254%N ->
+  tti_loop (S fuel) (p ++ rest) g tcp acc items = tti_loop fuel rest g tcp acc items.
+Proof. exact user_data_skipped. Qed.
+Print Assumptions C05_user_data_skipped.
+
+(* ---- rows ---- *)
+Theorem C05_rows_open : forall i : witem,
+  wi_lines i <> [] -> Forall line_repr (wi_lines i) -> (length (encode_text_stl (stl_item_text i)) <= 112)%nat ->
+  exists lines,
+    rows_open (split_byte 138 (pad_right_cut 143 112 (encode_text_stl (stl_item_text i)))) None [] = Ok (lines, None)
+    /\ map (map eff) lines = map (map wflags) (wi_lines i)
+    /\ (forall l x, In l lines -> In x l -> ru_sb x = None /\ ru_sa x = None).
+Proof. exact open_rows_flags. Qed.
+Print Assumptions C05_rows_open.
+Theorem C05_rows_teletext : forall i : witem,
+  wi_lines i <> [] -> Forall line_repr (wi_lines i) -> (length (encode_text_stl (stl_item_text i)) <= 112)%nat ->
+  rows_ttx (split_byte 138 (pad_right_cut 143 112 (encode_text_stl (stl_item_text i)))) None []
+  = (map expected_ttx_line (wi_lines i), None).
+Proof. exact ttx_rows_roundtrip. Qed.
+Print Assumptions C05_rows_teletext.
+Theorem C05_rows_teletext_flags : forall l, map eff (expected_ttx_line l) = map wflags l.
+Proof. exact eff_ttx_line. Qed.
+Print Assumptions C05_rows_teletext_flags.
+
+(* ---- documents ---- *)
+Theorem C05_write_read_open : forall now md items, doc_repr_open now md items ->
+  exists out, write_stl now md items = Ok out /\
+              read_stl false out = Ok (read_back (new_gsi now md items) expected_line items).
+Proof. exact write_read_open. Qed.
+Print Assumptions C05_write_read_open.
+Theorem C05_write_read_teletext : forall now md items, doc_repr_ttx now md items ->
+  exists out, write_stl now md items = Ok out /\
+              read_stl false out = Ok (read_back (new_gsi now md items) expected_ttx_line items).
+Proof. exact write_read_ttx. Qed.
+Print Assumptions C05_write_read_teletext.
+(* what read_back contains: times, lines, position and justification of every cue; the metadata *)
+Theorem C05_read_back_items : forall g line items,
+  map (fun x => (ri_st x, ri_en x)) (rd_items (read_back g line items)) = map (fun i => (wi_st i, wi_en i)) items /\
+  map ri_lines (rd_items (read_back g line items)) = map (fun i => map line (wi_lines i)) items /\
+  map ri_vp (rd_items (read_back g line items)) = map (fun i => match wi_vp i with Some v => v | None => 20%Z end) items /\
+  map ri_just (rd_items (read_back g line items)) = map (fun i => parse_jc (jc_of (wi_just i))) items.
+Proof. exact read_back_items. Qed.
+Print Assumptions C05_read_back_items.
+Theorem C05_open_line_flags : forall l, map eff (expected_line l) = map wflags l.
+Proof. exact eff_line. Qed.
+Print Assumptions C05_open_line_flags.
+Theorem C05_justification : forall j,
+  In j [stl_c_justificationUnchanged; stl_c_justificationLeft; stl_c_justificationCentered; stl_c_justificationRight] ->
+  parse_jc (jc_of (Some j)) = j.
+Proof. exact justification_roundtrip. Qed.
+Print Assumptions C05_justification.
+Theorem C05_read_back_metadata : forall now m items line,
+  let d := read_back (new_gsi now (Some m) items) line items in
+  rd_title d = wm_title m /\ rd_oet d = wm_oet m /\ rd_tpt d = wm_tpt m /\ rd_tet d = wm_tet m /\ rd_tn d = wm_tn m /\
+  rd_tcd d = wm_tcd m /\ rd_slr d = wm_slr m /\ rd_pub d = wm_pub m /\ rd_en d = wm_en m /\ rd_ecd d = wm_ecd m /\
+  rd_rn d = wm_rn m /\ rd_tcp d = wm_tcp m /\
+  rd_cd d = match wm_cd m with Some c => c | None => now end /\ rd_rd d = match wm_rd m with Some c => c | None => now end /\
+  rd_mnc d = match wm_mnc m with Some v => v | None => 40%Z end /\ rd_mnr d = match wm_mnr m with Some v => v | None => 23%Z end /\
+  rd_co d = match wm_co m with [] => stl_s_countryFrance | c => c end /\
+  rd_dsc d = match wm_dsc m with [] => stl_s_dscLevel1 | c => c end /\
+  rd_fps d = (if (wm_fps m =? 25)%Z || (wm_fps m =? 30)%Z then wm_fps m else 25%Z).
+Proof. exact read_back_metadata. Qed.
+Print Assumptions C05_read_back_metadata.
+(* a non-trivial document satisfies the representability predicate *)
+Theorem C05_example_document : doc_repr_open ex_now (Some ex_md) ex_items.
+Proof. exact ex_doc_repr. Qed.
+Print Assumptions C05_example_document.
